@@ -24,11 +24,21 @@ import (
 
 const exitPark = 2
 
+// frameCont: one suspended frame of a parked goroutine.  The innermost frame re-executes its blocked
+// instruction; an outer frame receives its callee's result in the call register and continues behind the call.
+type frameCont struct {
+	fr   *Frame
+	idx  int
+	call ssa.Value // outer frames: the call instruction whose callee is suspended (its register gets the result)
+}
+
 type parkedG struct {
-	fr       *Frame
-	idx      int
+	stack    []frameCont // innermost first
 	wait     ObjID
 	id       int
+	timer    int64 // > 0: a time.Sleep in progress, ends at this instant of the goroutine's own timeline (ns)
+	isSend   bool  // parked in a channel send
+	sendVal  Value
 	parkNext ObjID // allocation counter when parked (objects at or above were allocated later)
 	clock    *Term // the goroutine's own clock when it parked (deterministic clock mode)
 	what     string
@@ -36,18 +46,44 @@ type parkedG struct {
 
 // blockHere: the current thread cannot proceed at instruction idx of fr until something happens on obj.
 func (e *Engine) blockHere(st *State, fr *Frame, idx int, obj ObjID, what string, pos token.Pos, exits *[]exit) {
-	if fr.gtop {
-		*exits = append(*exits, exit{st: st, kind: exitPark, park: &parkedG{fr: fr.clone(), idx: idx, wait: obj, id: fr.gid, parkNext: st.next, what: what}})
+	if st.gdepth > 0 {
+		*exits = append(*exits, exit{st: st, kind: exitPark, park: &parkedG{stack: []frameCont{{fr: fr.clone(), idx: idx}}, wait: obj, id: st.gcur, parkNext: st.next, what: what}})
 		return
 	}
-	if st.gdepth == 0 {
-		// main thread: every other goroutine is parked (run-to-block), so nothing can wake it
-		e.stats.Obligations++
-		label := "deadlock: " + what + " blocks forever"
-		e.reportFailure(st, e.tc.True, "assert", label, pos)
+	// main thread: every other goroutine is parked (run-to-block).  If one of them is asleep, time passes until
+	// the earliest sleeper wakes up; it runs until it blocks again, then the main thread retries.
+	if pg := earliestTimer(st); pg != nil {
+		var rest []*parkedG
+		for _, p := range st.parked {
+			if p != pg {
+				rest = append(rest, p)
+			}
+		}
+		st.parked = rest
+		st.vnow = pg.timer
+		var px []exit
+		for _, s2 := range e.resumeG(st, pg, &px) {
+			var q pqueue
+			f2 := fr.clone()
+			e.execBlock(s2, f2, idx, &q, exits)
+			e.runLoop(&q, exits)
+		}
+		*exits = append(*exits, px...)
 		return
 	}
-	panic(unsupported("goroutine blocks in a nested frame (" + what + " at " + e.posString(pos) + ")"))
+	e.stats.Obligations++
+	label := "deadlock: " + what + " blocks forever"
+	e.reportFailure(st, e.tc.True, "assert", label, pos)
+}
+
+func earliestTimer(st *State) *parkedG {
+	var best *parkedG
+	for _, p := range st.parked {
+		if p.timer > 0 && (best == nil || p.timer < best.timer) {
+			best = p
+		}
+	}
+	return best
 }
 
 // runLoop drives the per-function worklist until empty.
@@ -105,50 +141,104 @@ func (e *Engine) spawn(st *State, fr *Frame, fv Value, args []Value, c *ssa.Call
 		e.funcsSeen[fn.String()] = true
 	}
 	e.stubsUsed["goroutines: canonical run-to-block schedule (one schedule, not all)"] = true
-	return e.runG(st, g, 0, exits, nil)
+	return e.runG(st, &parkedG{stack: []frameCont{{fr: g, idx: 0}}, id: gid}, exits)
 }
 
-// runG executes goroutine frame g from instruction idx of its current block until it parks or ends.
-func (e *Engine) runG(st *State, g *Frame, idx int, exits *[]exit, gclock *Term) []*State {
+// runG runs the suspended goroutine pg (its innermost frame from the recorded instruction, outer frames
+// behind their calls) until it parks again or ends; returns the states in which the acting thread continues.
+func (e *Engine) runG(st *State, pg *parkedG, exits *[]exit) []*State {
 	// every thread has its own clock: waiting in one goroutine does not delay another; a wake-up carries the
 	// waker's time over (the woken goroutine cannot run before the event that woke it)
-	caller := st.clock
-	if gclock != nil && caller != nil {
-		st.clock = e.tc.Ite(e.tc.BVSlt(caller, gclock), gclock, caller)
+	caller, callerG := st.clock, st.gcur
+	if pg.clock != nil && caller != nil {
+		st.clock = e.tc.Ite(e.tc.BVSlt(caller, pg.clock), pg.clock, caller)
 	}
 	st.gdepth++
-	var q pqueue
-	var gx []exit
-	e.execBlock(st, g, idx, &q, &gx)
-	e.runLoop(&q, &gx)
+	st.gcur = pg.id
+	type lvl struct {
+		st  *State
+		val Value
+	}
+	cur := []lvl{{st: st}}
 	var out []*State
-	for _, x := range gx {
+	done := func(x exit) {
 		x.st.gdepth--
-		switch x.kind {
-		case exitReturn:
-			if caller != nil {
-				x.st.clock = caller
-			}
-			out = append(out, x.st)
-		case exitPark:
-			x.park.clock = x.st.clock
-			if caller != nil {
-				x.st.clock = caller
-			}
-			x.st.parked = append(x.st.parked[:len(x.st.parked):len(x.st.parked)], x.park)
-			out = append(out, x.st)
-		case exitPanic:
-			*exits = append(*exits, exit{st: x.st, kind: exitPanic, pmsg: x.pmsg})
+		x.st.gcur = callerG
+		if caller != nil {
+			x.st.clock = caller
 		}
 	}
+	for level, fc := range pg.stack {
+		var next []lvl
+		for _, c := range cur {
+			f := fc.fr.clone()
+			start := fc.idx
+			if level > 0 {
+				if fc.call != nil {
+					f.regs[fc.call] = c.val
+				}
+				start = fc.idx + 1
+			}
+			var q pqueue
+			var gx []exit
+			e.execBlock(c.st, f, start, &q, &gx)
+			e.runLoop(&q, &gx)
+			for _, x := range gx {
+				switch x.kind {
+				case exitReturn:
+					next = append(next, lvl{st: x.st, val: x.val})
+				case exitPark:
+					// parked again somewhere below this frame: the outer frames stay suspended behind it
+					np := *x.park
+					np.stack = append(append([]frameCont{}, x.park.stack...), pg.stack[level+1:]...)
+					np.id = pg.id
+					np.clock = x.st.clock
+					done(x)
+					x.st.parked = append(x.st.parked[:len(x.st.parked):len(x.st.parked)], &np)
+					out = append(out, x.st)
+				case exitPanic:
+					done(x)
+					*exits = append(*exits, exit{st: x.st, kind: exitPanic, pmsg: x.pmsg})
+				}
+			}
+		}
+		cur = next
+	}
+	for _, c := range cur {
+		// the goroutine's outermost function returned: the goroutine has ended
+		done(exit{st: c.st})
+		out = append(out, c.st)
+	}
 	return out
+}
+
+func (e *Engine) resumeG(st *State, pg *parkedG, exits *[]exit) []*State {
+	g := *pg
+	g.stack = append([]frameCont{}, pg.stack...)
+	f := pg.stack[0].fr.clone()
+	f.entryNext = st.next // canonicalisation inside this activation must leave older objects alone
+	g.stack[0].fr = f
+	if pg.timer > 0 && st.clock != nil {
+		_ = st // sleeping goroutines keep their own clock
+	}
+	g.timer = 0
+	return e.runG(st, &g, exits)
+}
+
+// resumeGAt: resume with the stack as given (the caller has already positioned the innermost frame).
+func (e *Engine) resumeGAt(st *State, g *parkedG, exits *[]exit) []*State {
+	f := g.stack[0].fr.clone()
+	f.entryNext = st.next
+	g.stack[0].fr = f
+	g.timer = 0
+	return e.runG(st, g, exits)
 }
 
 // wake resumes, one after the other, the goroutines parked on obj (in every resulting state).
 func (e *Engine) wake(st *State, obj ObjID, exits *[]exit) []*State {
 	var ids []int
 	for _, p := range st.parked {
-		if p.wait == obj {
+		if p.wait == obj && p.timer == 0 {
 			ids = append(ids, p.id)
 		}
 	}
@@ -170,9 +260,7 @@ func (e *Engine) wake(st *State, obj ObjID, exits *[]exit) []*State {
 				continue
 			}
 			s.parked = rest
-			g := pg.fr.clone()
-			g.entryNext = s.next // canonicalisation inside this activation must leave older objects alone
-			next = append(next, e.runG(s, g, pg.idx, exits, pg.clock)...)
+			next = append(next, e.resumeG(s, pg, exits)...)
 		}
 		states = next
 	}
@@ -181,11 +269,20 @@ func (e *Engine) wake(st *State, obj ObjID, exits *[]exit) []*State {
 
 func (e *Engine) hasWaiter(st *State, obj ObjID) bool {
 	for _, p := range st.parked {
-		if p.wait == obj {
+		if p.wait == obj && !p.isSend && p.timer == 0 {
 			return true
 		}
 	}
 	return false
+}
+
+func parkedSender(st *State, obj ObjID) *parkedG {
+	for _, p := range st.parked {
+		if p.wait == obj && p.isSend {
+			return p
+		}
+	}
+	return nil
 }
 
 // schedSend: ch <- v.
@@ -207,6 +304,12 @@ func (e *Engine) schedSend(st *State, fr *Frame, idx int, ch ChanV, v Value, pos
 		return e.wake(st, ch.Obj, exits)
 	}
 	if !e.hasWaiter(st, ch.Obj) {
+		if st.gdepth > 0 {
+			// park as a sender: a receiver that arrives takes the value and lets the sender continue behind
+			// the send; closing the channel makes the re-executed send panic
+			*exits = append(*exits, exit{st: st, kind: exitPark, park: &parkedG{stack: []frameCont{{fr: fr.clone(), idx: idx}}, wait: ch.Obj, id: st.gcur, parkNext: st.next, what: "channel send", isSend: true, sendVal: v}})
+			return nil
+		}
 		e.blockHere(st, fr, idx, ch.Obj, "channel send (no receiver)", pos, exits)
 		return nil
 	}
@@ -257,6 +360,40 @@ func (e *Engine) schedRecv(st *State, fr *Frame, idx int, x *ssa.UnOp, exits *[]
 		}
 		return e.zero(et), true
 	}
+	if ps := parkedSender(st, ch.Obj); ps != nil {
+		// rendezvous with a parked sender: take its value; the sender continues behind its send (it runs, in
+		// this thread, until it blocks again) before the receiver goes on
+		var rest []*parkedG
+		for _, p := range st.parked {
+			if p != ps {
+				rest = append(rest, p)
+			}
+		}
+		st.parked = rest
+		g := *ps
+		g.stack = append([]frameCont{}, ps.stack...)
+		g.stack[0].idx++ // behind the send
+		g.isSend, g.sendVal = false, nil
+		var px []exit
+		states := e.resumeGAt(st, &g, &px)
+		*exits = append(*exits, px...)
+		val := ps.sendVal
+		for k, s2 := range states {
+			f2 := fr
+			if k < len(states)-1 {
+				f2 = fr.clone()
+			}
+			if x.CommaOk {
+				f2.regs[x] = TupleV{val, e.tc.True}
+			} else {
+				f2.regs[x] = val
+			}
+			var q pqueue
+			e.execBlock(s2, f2, idx+1, &q, exits)
+			e.runLoop(&q, exits)
+		}
+		return nil, false
+	}
 	e.blockHere(st, fr, idx, ch.Obj, "channel receive", x.Pos(), exits)
 	return nil, false
 }
@@ -271,18 +408,24 @@ func parkedEqual(a, b []*parkedG) bool {
 			continue
 		}
 		x, y := a[i], b[i]
-		if x.id != y.id || x.idx != y.idx || x.wait != y.wait || x.fr.fn != y.fr.fn || x.fr.block != y.fr.block || len(x.fr.regs) != len(y.fr.regs) || len(x.fr.defers) != len(y.fr.defers) {
+		if x.id != y.id || x.wait != y.wait || x.timer != y.timer || x.isSend != y.isSend || len(x.stack) != len(y.stack) || !valEqual(x.sendVal, y.sendVal) {
 			return false
 		}
-		for k, v := range x.fr.regs {
-			w, ok := y.fr.regs[k]
-			if !ok || !valEqual(v, w) {
+		for l := range x.stack {
+			fx, fy := x.stack[l], y.stack[l]
+			if fx.idx != fy.idx || fx.call != fy.call || fx.fr.fn != fy.fr.fn || fx.fr.block != fy.fr.block || len(fx.fr.regs) != len(fy.fr.regs) || len(fx.fr.defers) != len(fy.fr.defers) {
 				return false
 			}
-		}
-		for j := range x.fr.defers {
-			if !valEqual(x.fr.defers[j].fn, y.fr.defers[j].fn) {
-				return false
+			for k, v := range fx.fr.regs {
+				w, ok := fy.fr.regs[k]
+				if !ok || !valEqual(v, w) {
+					return false
+				}
+			}
+			for j := range fx.fr.defers {
+				if !valEqual(fx.fr.defers[j].fn, fy.fr.defers[j].fn) {
+					return false
+				}
 			}
 		}
 	}
